@@ -205,7 +205,8 @@ class Resolver:
             return terms[0]
         bases = {key(strip_norm(t)) for t in terms}
         if len(bases) == 1:
-            return sym("norm", strip_norm(terms[0]))
+            # same sequence on every path, differently normalised: keep the variants for order checks
+            return sym("norm", strip_norm(terms[0]), *sorted(terms, key=key))
         uniq = []
         for t in terms:
             if key(t) not in {key(u) for u in uniq}:
@@ -310,3 +311,30 @@ def mentions(t: ast.AST, pred) -> bool:
 
 def names_in(t: ast.AST) -> Set[str]:
     return {s.id for s in ast.walk(t) if isinstance(s, ast.Name) and not s.id.startswith("§")}
+
+
+def norm_chains(t: ast.AST) -> List[List[Tuple[str, ast.Call]]]:
+    """All normalisation operator chains of a sequence term (one per reaching-definition variant)."""
+    if is_sym(t, "norm"):
+        out: List[List[Tuple[str, ast.Call]]] = []
+        for v in t.args[1:]:
+            out += norm_chains(v)
+        return out or [[]]
+    ops = []
+    cur = t
+    while True:
+        if is_sym(cur, "norm"):
+            tails = norm_chains(cur)
+            return [ops + tail for tail in tails]
+        if isinstance(cur, ast.Call):
+            fn = cur.func
+            if isinstance(fn, ast.Attribute) and fn.attr in NORM_METHODS:
+                ops.append((fn.attr, cur))
+                cur = fn.value
+                continue
+            fname = fn.attr if isinstance(fn, ast.Attribute) else getattr(fn, "id", "")
+            if fname in NORM_FUNCS and cur.args:
+                ops.append((fname, cur))
+                cur = cur.args[0]
+                continue
+        return [ops]
